@@ -189,10 +189,6 @@ func scoreRef(b *built, cs [][]graph.Node, weight bool) (float64, string) {
 
 func checkProfileModular(t *vlib.T, b *built) {
 	sp := b.sp
-	if sp.totalWeight() == 0 {
-		t.Outcome("no-edges-skipped")
-		return
-	}
 	outcome := ""
 	for _, weight := range []bool{false, true} {
 		score := community.Size
@@ -303,70 +299,83 @@ func checkProfileMultiplex(t *vlib.T, s graphSpace, idxs []int, idKind, order in
 	outcome := ""
 	for wi, ws := range [][]float64{nil, {1, 0.5}, {1, -1}} {
 		m := buildMultiplex(s, idxs, ws, idKind, order)
-		if m.sp[0].totalWeight()+m.sp[1].totalWeight() == 0 {
-			t.Outcome("no-edges-skipped")
-			return
-		}
 		for _, weight := range []bool{false, true} {
 			score, name := community.SizeMultiplex, "SizeMultiplex"
 			if weight {
 				score, name = community.WeightMultiplex, "WeightMultiplex"
 			}
 			all := (wi+idxs[0]+idxs[1])%2 == 1
-			fn := community.ModularMultiplexScore(m.g, ws, all, score, 2, rand.NewPCG(5, 6))
-			p, err := community.Profile(fn, wi%2 == 1, 0.25, 0.25, 4)
-			t.Count("profiles", 1)
-			what := fmt.Sprintf("Profile(ModularMultiplexScore(layers %s, weights %v, all=%v, %s))", m, ws, all, name)
-			if err != nil {
-				outcome += "E" // not guaranteed to be monotone
-				continue
-			}
-			if msg := checkProfileShape(p, 0.25, 4); msg != "" {
-				t.Failf("%s: %s; %+v", what, msg, p)
-				return
-			}
-			for i, iv := range p {
-				cs := iv.Reduced.Communities()
-				seen := map[int64]bool{}
-				var w float64
-				for _, c := range cs {
-					for _, u := range c {
-						if seen[u.ID()] {
-							t.Failf("%s interval %d: node %d twice in %v", what, i, u.ID(), cs)
-							return
+			for _, unlucky := range []bool{false, true} {
+				inner := community.ModularMultiplexScore(m.g, ws, all, score, 2, rand.NewPCG(5, 6))
+				fn, high := inner, 4.0
+				what := fmt.Sprintf("Profile(ModularMultiplexScore(layers %s, weights %v, all=%v, %s))", m, ws, all, name)
+				if unlucky {
+					// the first evaluation at every resolution is made at 64 times the
+					// resolution (lowest score), so that the retry loops of bisect run
+					at := map[float64]int{}
+					high = 1.25
+					fn = func(x float64) (float64, community.Reduced) {
+						at[x]++
+						if at[x] > 1 {
+							return inner(x)
 						}
-						seen[u.ID()] = true
-						for _, v := range c {
-							for l, sp := range m.sp {
-								iu, iv := indexOfID(m.ids, u.ID()), indexOfID(m.ids, v.ID())
-								if iu < 0 || iv < 0 {
-									t.Failf("%s interval %d: unknown node in %v", what, i, cs)
-									return
-								}
-								if sp.has(iu, iv) {
-									if layerW(ws, l) < 0 {
-										w -= math.Abs(sp.a(iu, iv))
-									} else {
-										w += math.Abs(sp.a(iu, iv))
+						return inner(64 * x)
+					}
+					what += " with an unlucky first evaluation, [0.25,1.25)"
+				}
+				p, err := community.Profile(fn, wi%2 == 1, 0.25, 0.25, high)
+				t.Count("profiles", 1)
+				if err != nil {
+					outcome += "E" // not guaranteed to be monotone
+					continue
+				}
+				if msg := checkProfileShape(p, 0.25, high); msg != "" {
+					t.Failf("%s: %s; %+v", what, msg, p)
+					return
+				}
+				for i, iv := range p {
+					cs := iv.Reduced.Communities()
+					seen := map[int64]bool{}
+					var w float64
+					for _, c := range cs {
+						for _, u := range c {
+							if seen[u.ID()] {
+								t.Failf("%s interval %d: node %d twice in %v", what, i, u.ID(), cs)
+								return
+							}
+							seen[u.ID()] = true
+							for _, v := range c {
+								for l, sp := range m.sp {
+									iu, iv := indexOfID(m.ids, u.ID()), indexOfID(m.ids, v.ID())
+									if iu < 0 || iv < 0 {
+										t.Failf("%s interval %d: unknown node in %v", what, i, cs)
+										return
+									}
+									if sp.has(iu, iv) {
+										if layerW(ws, l) < 0 {
+											w -= math.Abs(sp.a(iu, iv))
+										} else {
+											w += math.Abs(sp.a(iu, iv))
+										}
 									}
 								}
 							}
 						}
 					}
+					if len(seen) != s.n {
+						t.Failf("%s interval %d: Communities() %v is not a partition of the nodes", what, i, cs)
+						return
+					}
+					want := 1 / float64(len(cs))
+					if weight {
+						want = w
+					}
+					if iv.Score != want {
+						t.Failf("%s interval %d [%v,%v): Score %v, but its Reduced %v scores %v from scratch", what, i, iv.Low, iv.High, iv.Score, cs, want)
+					}
 				}
-				if len(seen) != s.n {
-					t.Failf("%s interval %d: Communities() %v is not a partition of the nodes", what, i, cs)
-					return
-				}
-				want := 1 / float64(len(cs))
-				if weight {
-					want = w
-				}
-				if iv.Score != want {
-					t.Failf("%s interval %d [%v,%v): Score %v, but its Reduced %v scores %v from scratch", what, i, iv.Low, iv.High, iv.Score, cs, want)
-				}
+				outcome += fmt.Sprint(min(len(p), 3))
 			}
-			outcome += fmt.Sprint(min(len(p), 3))
 		}
 	}
 	t.Nontrivial()
